@@ -400,6 +400,11 @@ pub fn main(subs: Vec<Sub>, assumptions: &dyn Fn(&str) -> Vec<String>) -> ! {
     // keep harness output clean: panics inside cases are caught and reported as failures
     std::panic::set_hook(Box::new(|_| {}));
     let args: Vec<String> = std::env::args().collect();
+    if args.len() == 3 && args[1] == "--list-random" {
+        // order of the tape-driven sub-checks of a property (the libFuzzer `tape` target indexes into it)
+        for s in subs.iter().filter(|s| s.prop == args[2]) { if let Kind::Random { .. } = s.kind { println!("{}", s.name) } }
+        std::process::exit(0)
+    }
     if args.len() < 3 {
         eprintln!("usage: {} <PROPERTY> <quick|thorough> [--replay FILE] [--only SUB]", args[0]);
         std::process::exit(2)
